@@ -27,6 +27,9 @@ def poll_output_ty(dest_ty):
     return a[0] if a else 'unknown'
 
 
+NOT_READY = object()      # an await handler's outcome meaning: this poll returns Poll::Pending
+
+
 @contract(r'^<.* as (?:futures::|std::future::|core::future::)?Future>::poll$')
 def future_poll(ctx):
     ex, st = ctx.ex, ctx.st
@@ -51,7 +54,7 @@ def future_poll(ctx):
             raise Unsupported('no await handler for ' + v.kind)
         r = h(ctx, v)
         if isinstance(r, list):
-            return [(s2, mk_poll_ready(ex, x)) for s2, x in r]
+            return [(s2, Agg('Poll', {}, 1, {}, ex.si.enums['Poll']) if x is NOT_READY else mk_poll_ready(ex, x)) for s2, x in r]
         return mk_poll_ready(ex, r)
     if isinstance(v, Agg) and v.name == 'PollFn':
         # tokio::future::poll_fn(f): polling it calls f(cx)  (tokio::select! lowers to this)
